@@ -281,6 +281,7 @@ func c18Run(c c18Case, res *WRes) {
 	}
 	var o *Obs
 	crashed := false
+	panicked := ""
 	func() {
 		defer func() {
 			if r := recover(); r != nil {
@@ -288,7 +289,7 @@ func c18Run(c c18Case, res *WRes) {
 					crashed = true
 					return
 				}
-				panic(r)
+				panicked = fmt.Sprint(r)
 			}
 		}()
 		o = p.target()
@@ -326,6 +327,23 @@ func c18Run(c c18Case, res *WRes) {
 	}
 	site := strings.Join(fdesc, "+")
 	siteNoIdx := site
+	if panicked != "" {
+		if lookupSentinel {
+			// a store that answers "inactive" / "not found" without the documented companion value: outside the storage contract
+			res.DontCare++
+			res.note("panic-under-contract-violating-lookup-answer:" + c.Flow + "/" + site)
+		} else {
+			viol(fmt.Sprintf("C18/panic-on-storage-failure/%s/%s", c.Flow, siteNoIdx), fmt.Sprintf("flow %s: storage failure %s made the request panic: %s", c.Flow, site, panicked), "clean refusal", panicked)
+		}
+		if w.Tx != nil && w.Tx.depth > 0 {
+			if w.Tx.snap != nil {
+				w.Tx.snap.restore(w.Store)
+				w.Tx.snap = nil
+			}
+			w.Tx.depth = 0
+		}
+		return
+	}
 	res.class(fmt.Sprintf("%s:%s:%s", c.Flow, map[bool]string{true: "delivered", false: "refused"}[delivered(o)], map[bool]string{true: "crash", false: "fault"}[crashed]))
 	res.distinct(fmt.Sprintf("%s|%v|%s", c.Flow, c.Tx, site))
 	// (a) no tokens in the response
@@ -378,7 +396,8 @@ func c18Run(c c18Case, res *WRes) {
 		failedWrite := false
 		for _, f := range c.Faults {
 			n := faultNames[f.Call]
-			if n != "" && !c18Lookup.MatchString(n) && n != "BeginTX" && n != "Commit" && n != "Rollback" && inTxAtFault {
+			sentinel := strings.HasPrefix(n, "Revoke") && (f.Kind == "not-found" || f.Kind == "inactive")
+			if n != "" && !c18Lookup.MatchString(n) && !sentinel && n != "BeginTX" && n != "Commit" && n != "Rollback" && inTxAtFault {
 				failedWrite = true
 			}
 		}
@@ -395,7 +414,7 @@ func c18Run(c c18Case, res *WRes) {
 		}
 	}
 	// (d) a failure inside the issuing transaction leaves every code / token record as it was
-	rolledBack := w.Tx != nil && inTxAtFault && !strings.Contains(strings.Join(w.Tx.TxTrace[txStart:], " "), "rollback!")
+	rolledBack := w.Tx != nil && inTxAtFault && !lookupSentinel && !strings.Contains(strings.Join(w.Tx.TxTrace[txStart:], " "), "rollback!")
 	if rolledBack && !(len(faultNames) == 1 && hasName(faultNames, "Commit") && false) {
 		after := c18CoreDump(w)
 		if after != before && !delivered(o) {
